@@ -59,13 +59,24 @@ def load_known():
 def match_known(known, pid, ob_name, clause, fn):
     base = re.sub(r"#\d+$", "", ob_name)
     for k in known.get("findings", []):
-        if k.get("property") != pid:
+        if k.get("property") != pid or k.get("standin_key") is not None:
+            continue
+        if not k.get("obligation") and not k.get("clause_contains"):
             continue
         if k.get("obligation") and not base.endswith(k["obligation"]) and k["obligation"] not in base:
             continue
         if k.get("clause_contains") and k["clause_contains"] not in (clause or ""):
             continue
         return k
+    return None
+
+
+def match_known_standin(known, pid, name, key):
+    """a recorded finding suppresses exactly one stand-in failure key (the specific input / call site that fails)"""
+    for k in known.get("findings", []):
+        if k.get("property") == pid and k.get("standin_key") is not None and k["standin_key"] == key \
+                and k.get("standin", name) == name:
+            return k
     return None
 
 
@@ -286,21 +297,26 @@ def run_property(mod, tier="quick", replay_path=None):
         sr = run_py("run_standin.py", {"module": mod.__name__, "name": name, "tier": tier, "seed": seed,
                                        "property": pid}, timeout=3000)
         entry = {"function": name, "kind": "bounded", "cases": sr.get("cases", 0), "distinct": sr.get("distinct", 0),
-                 "bound": sr.get("bound"), "failures": len(sr.get("failures", [])), "error": sr.get("error")}
+                 "bound": sr.get("bound"), "failures": len(sr.get("failures", [])), "error": sr.get("error"),
+                 "samples": sr.get("samples", [])[:2]}
         standins.append(entry)
         if sr.get("error"):
             errors.append(f"stand-in {name}: {sr.get('error')} {str(sr.get('stderr', ''))[:400]} {str(sr.get('trace', ''))[-600:]}")
         for fl in sr.get("failures", []):
-            kf = match_known(known, pid, "standin:" + name, fl.get("violated") or fl.get("what"), name)
+            key = fl.get("key") or fl.get("violated") or fl.get("what")
+            kf = match_known_standin(known, pid, name, key)
             if kf is not None:
                 if kf["id"] not in [x["id"] for x in known_matched]:
                     known_matched.append(kf)
                 continue
-            path = os.path.join(VERIF, "replays", pid, "standin_" + name + ".json")
+            tag = hashlib.md5(str(key).encode()).hexdigest()[:8]
+            path = os.path.join(VERIF, "replays", pid, f"standin_{name}_{tag}.json")
             with open(path, "w") as fh:
-                json.dump({"property": pid, "standin": name, "kind": "bounded stand-in", "failure": fl}, fh, indent=1, default=str)
-            violations.append(("standin:" + name, path, True))
-            break
+                json.dump({"property": pid, "standin": name, "kind": "bounded stand-in", "key": key, "tier": tier, "seed": seed,
+                           "failure": fl, "replay": f"./check {pid} --replay {os.path.relpath(path, VERIF)}"}, fh, indent=1, default=str)
+            violations.append((f"standin:{name}:{key}", path, True))
+            if len([v for v in violations if v[0].startswith("standin:")]) >= 8:
+                break
 
     wall = time.time() - t0
     # ---------------------------------------------------------------- evidence
